@@ -76,13 +76,13 @@ int bufr_load_cmc_tables( BUFR_Tables *tables )
    env = getenv( "AFSISIO" );
    if (env) 
       {
-      sprintf( path, "%s/datafiles/constants", env );
+      snprintf( path, sizeof(path), "%s/datafiles/constants", env );
       }
    else 
       {
       env = getenv( "BUFR_TABLES" );
       if (env) 
-         sprintf( path, "%s", env );
+         snprintf( path, sizeof(path), "%s", env );
       else
          {
          char errmsg[256];
@@ -95,11 +95,11 @@ int bufr_load_cmc_tables( BUFR_Tables *tables )
 
    if (env == NULL) return -1;
 
-   sprintf( filename, "%s/table_b_bufr", path );
+   snprintf( filename, sizeof(filename), "%s/table_b_bufr", path );
 
    rtrnB = bufr_load_m_tableB( tables, filename );
 
-   sprintf( filename, "%s/table_d_bufr", path );
+   snprintf( filename, sizeof(filename), "%s/table_d_bufr", path );
    rtrnD = bufr_load_m_tableD( tables, filename );
 
    return ( (rtrnD >= 0) && (rtrnB >= 0 ));
